@@ -28,7 +28,7 @@ LEVEL = "exploration"
 SHARDS = {"quick": 8, "thorough": 16}
 TIMEOUT_S = {"quick": 900, "thorough": 3600}
 BUDGET_S = {"quick": 150, "thorough": 1800}
-RULE = ("alphabet of 23 actions: {viewer, sim} x {reliable, unreliable} x {no acks, appended acks for everything seen, "
+RULE = ("alphabet of 23 actions (+2 in the walks: an endpoint's reliable packet is take()n and its copy sent by the proxy): {viewer, sim} x {reliable, unreliable} x {no acks, appended acks for everything seen, "
         "appended ack for the oldest seen}, standalone PacketAck {all, oldest, oldest+appended rest} per side, proxy "
         "injections {out, in} x {reliable, unreliable}, drop-next toggle, clock +1 s, clock +3 s (resend interval) each "
         "followed by resend_unacked(). Exhaustive DFS with (implementation, model) state hashing to depth 4 (quick) / 6 "
@@ -44,7 +44,7 @@ ASSUMPTIONS = [
 MUST_REACH = {"events": 5000, "acks_translated_after_injection": 50, "acks_for_injected_swallowed": 50,
               "drops_with_piggybacked_acks": 20, "proxy_acks_for_dropped_reliable": 20, "resends_observed": 50,
               "budgets_exhausted": 5, "completions_by_ack": 50, "packetack_with_appended_acks": 20, "states": 300,
-              "older_ack_after_second_injection": 10, "protocol_level_events": 2000}
+              "older_ack_after_second_injection": 10, "protocol_level_events": 2000, "taken_reliable_sent_later": 50}
 
 _ser = UDPMessageSerializer()
 _es = Settings()
@@ -65,6 +65,8 @@ for side in ("V", "S"):
     for mode in ("A", "o", "m"):
         ACTIONS.append(f"{side}P{mode}")
 ACTIONS += ["IOr", "IOu", "IIr", "IIu", "D", "T1", "T3"]
+# walks (not the exhaustive part) also let the proxy TAKE an endpoint's reliable packet and send the copy itself
+WALK_ACTIONS = ACTIONS + ["VT", "ST"]
 
 
 class RecTransport(AbstractUDPTransport):
@@ -303,6 +305,59 @@ class Run:
             self.deliver(e)
         return True
 
+    def endpoint_taken(self, who):
+        """An endpoint's reliable packet is taken by an addon (Message.take()): the proxy drops and acknowledges the original
+        and the addon sends the copy - from then on that copy is a reliable packet the proxy injected."""
+        m = self.model
+        side = m.sides[who]
+        direction = OUT if who == "V" else IN
+        rev = IN if who == "V" else OUT
+        o = side.next_id
+        side.next_id += 1
+        side.sent_ids.add(o)
+        msg = Message("CompletePingCheck", Block("PingID", PingID=o & 0xFF), packet_id=o, flags=int(PacketFlags.RELIABLE))
+        m.drop_next = False
+        try:
+            self.process_take(bytes(_ser.serialize(msg)), direction)
+        except Exception as e:
+            self.viol("circuit-raises", "taking an endpoint's packet and sending the copy raised", exc=repr(e)[:300])
+            return True
+        self.ctx.count("taken_reliable_sent_later")
+        ems = self.take_emissions()
+        to_sender = [e for e in ems if e["direction"] == rev]
+        to_peer = [e for e in ems if e["direction"] == direction]
+        m.drops_total += 1
+        if len(to_sender) != 1 or to_sender[0]["name"] != "PacketAck" or to_sender[0]["blocks"] != [o] or to_sender[0]["acks"]:
+            self.viol("dropped-reliable-not-acked", "the original of a taken reliable packet was not acknowledged to its sender "
+                      "exactly once", ems=_j(ems), orig=o)
+        for e in to_sender:
+            self._note_injected(rev, e)
+        if len(to_peer) != 1 or to_peer[0]["name"] != "CompletePingCheck" or not to_peer[0]["flags"] & int(PacketFlags.RELIABLE):
+            self.viol("taken-copy-not-sent-once", "the copy of a taken packet was not put on the wire exactly once, reliably", ems=_j(ems))
+            for e in ems:
+                self.deliver(e)
+            return True
+        e = to_peer[0]
+        self._note_injected(direction, e)
+        info = self.circuit.unacked_reliable.get((direction, e["id"]))
+        if info is None:
+            self.viol("injected-reliable-not-tracked", "a reliable packet the proxy sent itself (copy of a taken packet) is not in "
+                      "the unacked table, so it will never be retransmitted", em=_j(e))
+        else:
+            info.tries_left = m.tries
+            m.unacked[(direction, e["id"])] = [m.now, m.tries, info.completed, e["name"]]
+        for e2 in ems:
+            self.deliver(e2)
+        return True
+
+    def process_take(self, data, direction):
+        wire = _deser.deserialize(data)
+        wire.direction = direction
+        cp = wire.take()
+        self.circuit.collect_acks(wire)
+        self.circuit.drop_message(wire)        # what the proxy does with a queued original
+        self.circuit.send(cp)
+
     def process(self, data, direction, dropping):
         """Circuit-level backend: the call sequence of handle_proxied_packet, written out."""
         wire = _deser.deserialize(data)
@@ -411,6 +466,8 @@ class Run:
         if action[0] == "I":
             return self.inject(OUT if action[1] == "O" else IN, action[2] == "r")
         who = action[0]
+        if action[1] == "T":
+            return self.endpoint_taken(who)
         if action[1] == "P":
             return self.endpoint_packet(who, False, "-", packet_ack_mode=action[2])
         return self.endpoint_packet(who, action[1] == "r", action[2])
@@ -425,8 +482,14 @@ class DropAddon:
     """The 'proxy drops the next packet' action, as an addon would do it."""
     def __init__(self):
         self.drop_next = False
+        self.take_next = False
+        self.taken = None
 
     def handle_lludp_message(self, session, region, message):
+        if self.take_next:
+            self.take_next = False
+            self.taken = message.take()
+            return None
         if self.drop_next:
             self.drop_next = False
             region.circuit.drop_message(message)
@@ -472,6 +535,17 @@ class ProtocolRun(Run):
         self.addon.drop_next = False
         if exc is not None:
             raise exc
+
+    def process_take(self, data, direction):
+        self.addon.take_next = True
+        self.addon.taken = None
+        exc = self.assoc.from_viewer(self.far_addr, data) if direction == OUT else self.assoc.from_sim(self.far_addr, data)
+        self.addon.take_next = False
+        if exc is not None:
+            raise exc
+        if self.addon.taken is None:
+            raise AssertionError("the addon hook was not reached")
+        self.circuit.send(self.addon.taken)
 
     def take_emissions(self):
         from ..harness_proxy import socks_unwrap_ref
@@ -559,13 +633,14 @@ def random_walk(ctx, rng, steps, tries, profile="mixed", backend="circuit"):
         run = (ProtocolRun if backend == "protocol" else Run)(ctx, tries)
         run.backend = backend
         run.clock = clock
-        weights = [3 if a[0] in "VS" else 2 for a in ACTIONS]
+        weights = [3 if a[0] in "VS" else 2 for a in WALK_ACTIONS]
         if profile == "timers":
             # several injected reliable packets outstanding at once, fine-grained clock, few acks
-            weights = [{"IOr": 6, "IIr": 6, "T1": 14, "T3": 3}.get(a, 2 if a[0] in "VS" and a.endswith("-") else
-                                                                   1 if a[0] in "VS" and a[2] == "o" else 0) for a in ACTIONS]
+            weights = [{"IOr": 6, "IIr": 6, "T1": 14, "T3": 3, "VT": 3, "ST": 3}.get(a, 2 if a[0] in "VS" and a.endswith("-") else
+                                                                                     1 if a[0] in "VS" and len(a) > 2 and a[2] == "o" else 0)
+                       for a in WALK_ACTIONS]
         for _ in range(steps):
-            a = rng.choices(ACTIONS, weights=weights)[0]
+            a = rng.choices(WALK_ACTIONS, weights=weights)[0]
             run.apply(a)
             if not run.ok:
                 break
@@ -595,7 +670,7 @@ def run(ctx):
     ctx.sample({"dfs_first_actions": firsts, "depth": depth, "states": n, "alphabet": ACTIONS})
     # directed: retry budgets run out (both directions, both budgets, with unrelated traffic in between)
     if ctx.shard == 0:
-        for tries, path in ((3, ["IOr", "T3", "T3", "T3", "T3"]), (3, ["IIr", "T1", "T3", "Vu-", "T3", "Su-", "T3", "T1"]),
+        for tries, path in ((3, ["VT", "T3", "SrA", "T3"]), (3, ["ST", "T3", "T3", "T3", "T3"]), (3, ["IOr", "T3", "T3", "T3", "T3"]), (3, ["IIr", "T1", "T3", "Vu-", "T3", "Su-", "T3", "T1"]),
                             (10, ["IOr"] + ["T3"] * 11), (10, ["IIr", "IOr"] + ["T3", "Vu-", "T1"] * 11),
                             (3, ["IOr", "IOr", "T3", "SPo", "T3", "T3", "T3"]), (3, ["IIr", "T3", "T3", "VrA", "T3", "T3"])):
             replay_path(ctx, path, tries)
@@ -613,7 +688,7 @@ def run(ctx):
             break
         random_walk(ctx, rng, 120, tries=rng.choice([3, 10]), profile="timers" if k % 3 == 2 else "mixed", backend="protocol")
     if ctx.shard == 0:
-        for path in (["IIr", "D", "SrA", "T3", "T3"], ["IOr", "D", "VrA", "T3"], ["IIr", "D", "VPA", "T3"], ["IOr", "IIr", "D", "SuA", "D", "VuA", "T3"]):
+        for path in (["VT", "T3", "T3", "T3", "T3"], ["ST", "T1", "T3", "VrA", "T3"], ["IIr", "D", "SrA", "T3", "T3"], ["IOr", "D", "VrA", "T3"], ["IIr", "D", "VPA", "T3"], ["IOr", "IIr", "D", "SuA", "D", "VuA", "T3"]):
             replay_path(ctx, path, 3, backend="protocol")
             ctx.ev()
     tmon.drain(ctx)
